@@ -114,12 +114,19 @@ fn o_fields(f: &Fields, st: &mut Stats) -> Result<(), String> {
 }
 
 fn scalar_case(idx: u64) -> Option<Fields> {
-    // idx = scalar * 4 + variant; variant: 0 alone/String, 1 in context a.c.b/String, 2 alone/typed, 3 context/typed
-    let scalar = (idx / 4) as u32;
-    let variant = idx % 4;
+    // idx = scalar * 6 + variant; variant: 0 alone/String, 1 in context a.c.b/String, 2 alone/typed, 3 context/typed,
+    // 4 at the end of a 30-character run/String, 5 in the middle of a 30-character run/typed (the same long text
+    // in every position)
+    let scalar = (idx / 6) as u32;
+    let variant = idx % 6;
     let c = char::from_u32(scalar)?;
-    let x = if variant % 2 == 0 { c.to_string() } else { format!("a{c}b") };
-    let typed = variant >= 2;
+    let x = match variant {
+        0 | 2 => c.to_string(),
+        1 | 3 => format!("a{c}b"),
+        4 => format!("{}{c}", "a".repeat(30)),
+        _ => format!("{}{c}{}", "b".repeat(15), "b".repeat(15)),
+    };
+    let typed = variant == 2 || variant == 3 || variant == 5;
     let ty = if typed { KNOWN_TYPES[(scalar as usize) % 7].to_string() } else { "t".to_string() };
     Some(Fields { ty, typed, ns: x.clone(), name: x.clone(), version: x.clone(), quals: vec![("k".into(), x.clone())], subpath: x })
 }
@@ -185,11 +192,25 @@ fn o_parsed(c: &SpelledCase, st: &mut Stats) -> Result<(), String> {
     parsed::<ITyped>(&s, st)
 }
 
+fn o_hist(h: &crate::history::Hist<Fields>, st: &mut Stats) -> Result<(), String> {
+    // the judged text for the prelude: what the fields print as (if they build at all)
+    let text = build_fields::<IStr>(&Fields { typed: false, ..h.inner.clone() }).ok().flatten().and_then(|p| text(&p).ok()).unwrap_or_default();
+    crate::history::judge(h, &text, o_fields, st)
+}
+
 pub fn sections() -> Vec<Box<dyn Section>> {
     vec![
+        Box::new(Random {
+            name: "random-fields-after-a-prelude".into(),
+            quick: 16_000,
+            thorough: 400_000,
+            strategy: Box::new(|_| crate::history::ghist(gfields())),
+            oracle: o_hist,
+            required: vec!["needs-escaping"],
+        }),
         Box::new(Enumerated {
             name: "every-scalar-value-in-every-position".into(),
-            total: Box::new(|_| 0x110000 * 4),
+            total: Box::new(|_| 0x110000 * 6),
             make: Box::new(|_, i| scalar_case(i)),
             oracle: o_fields,
             required: vec!["needs-escaping", "typed"],
